@@ -62,6 +62,11 @@ fn library() -> HashMap<String, String> {
     st.insert("a".to_string(), "# A\n\ntext [b](b) more\n\n[b](b)\n\n[gone](missing)\n\n- item one\n- item two\n\n## Sub\n\n[d](d/x)\n".to_string());
     st.insert("b".to_string(), "[top](a)\n\n# B\n\npara\n".to_string());
     st.insert("d/x".to_string(), "# X\n\n[up](../a)\n\ninline [a](../a) link\n".to_string());
+    // notes without a heading (no title) that include each other, and one that includes itself: whatever walks from a
+    // note to its including notes must terminate on them (keys sort behind `d/x`: the node ids of a, b, d/x stay)
+    st.insert("h1".to_string(), "[two](h2)\n".to_string());
+    st.insert("h2".to_string(), "[one](h1)\n\ntext [one](h1) inline\n".to_string());
+    st.insert("hs".to_string(), "[self](hs)\n".to_string());
     st.insert("r".to_string(), "# Root\n\n## Part\n\n[a](a)\n".to_string());
     // dangling block references with long non-ASCII targets, shifted by 0-3 ASCII bytes so that any fixed byte
     // position falls inside a multi-byte character for some of them (whatever handles the panic text of a
@@ -88,7 +93,7 @@ pub fn uri(k: &str) -> String {
 /// (label, method, params): every advertised method × parameter classes
 pub fn request_classes() -> Vec<(String, String, Value)> {
     let mut out = vec![];
-    let uris = [("known", uri("a")), ("known-subdir", uri("d/x")), ("unknown-file", uri("nope")), ("outside-library", "file:///elsewhere/z.md".to_string())];
+    let uris = [("known", uri("a")), ("known-subdir", uri("d/x")), ("headingless-cycle", uri("h1")), ("headingless-self", uri("hs")), ("unknown-file", uri("nope")), ("outside-library", "file:///elsewhere/z.md".to_string())];
     let positions = [("inside-link", json!({"line": 2, "character": 7})), ("no-link", json!({"line": 0, "character": 0})), ("beyond-text", json!({"line": 9999, "character": 9999})), ("dangling-link", json!({"line": 6, "character": 3})), ("block-ref", json!({"line": 4, "character": 2}))];
     for (ul, u) in &uris {
         let td = json!({"uri": u});
@@ -201,6 +206,12 @@ fn battery(s: &mut Session) -> Vec<String> {
                 items.sort();
                 format!("[{}]", items.join(","))
             }
+            // a completion list: the order of items with equal sort text is the client's business
+            Value::Object(o) if o.get("items").map(|i| i.is_array()).unwrap_or(false) => {
+                let mut items: Vec<String> = o["items"].as_array().unwrap().iter().map(|v| v.to_string()).collect();
+                items.sort();
+                format!("{{items:[{}],isIncomplete:{}}}", items.join(","), o.get("isIncomplete").cloned().unwrap_or(Value::Null))
+            }
             v => v.to_string(),
         };
         format!("{}: result {} error {}", method, body, r["error"])
@@ -242,7 +253,7 @@ pub fn run(ctx: &Ctx, model: &mut Model, rep: &mut Report) {
         idx.swap(i, r.below(i + 1));
     }
     // the known-finding classes are always exercised
-    let mut chosen: Vec<usize> = idx.iter().cloned().filter(|i| open.iter().any(|o| classes[*i].0.starts_with(o.as_str())) || classes[*i].0.starts_with("rename-free/non-ascii-dangling") || classes[*i].0.starts_with("unknown-method") || classes[*i].0.starts_with("executeCommand/") || classes[*i].0 == "malformed-params").collect();
+    let mut chosen: Vec<usize> = idx.iter().cloned().filter(|i| open.iter().any(|o| classes[*i].0.starts_with(o.as_str())) || classes[*i].0.starts_with("rename-free/non-ascii-dangling") || (classes[*i].0.contains("/headingless-") && classes[*i].0.matches('/').count() == 1) || classes[*i].0.starts_with("unknown-method") || classes[*i].0.starts_with("executeCommand/") || classes[*i].0 == "malformed-params").collect();
     for i in idx {
         if chosen.len() >= take.max(chosen.len()) {
             break;
